@@ -428,12 +428,16 @@ func (g *game) onReadyRequested(gs *pokerface.GameState) {
 	g.rg.ResetParticipants()
 	for _, p := range gs.Players {
 		g.rg.Add(int64(p.Idx), false)
+	}
 
+	// the group must be running before anybody is allowed to answer: an answer accepted while the
+	// group has not been started is dropped and the hand waits for the response timeout
+	g.rg.Start()
+
+	for _, p := range gs.Players {
 		// Allow "ready" action
 		p.AllowAction(Action_Ready)
 	}
-
-	g.rg.Start()
 }
 
 func (g *game) onAnteRequested(gs *pokerface.GameState) {
@@ -470,12 +474,15 @@ func (g *game) onAnteRequested(gs *pokerface.GameState) {
 	g.rg.ResetParticipants()
 	for _, p := range gs.Players {
 		g.rg.Add(int64(p.Idx), false)
+	}
 
+	// running before anybody is allowed to answer (see onReadyRequested)
+	g.rg.Start()
+
+	for _, p := range gs.Players {
 		// Allow "pay" action
 		p.AllowAction(Action_Pay)
 	}
-
-	g.rg.Start()
 }
 
 func (g *game) onBlindsRequested(gs *pokerface.GameState) {
@@ -506,21 +513,28 @@ func (g *game) onBlindsRequested(gs *pokerface.GameState) {
 	})
 
 	g.rg.ResetParticipants()
+	payers := make([]*pokerface.PlayerState, 0)
 	for _, p := range gs.Players {
-		// Allow "pay" action
 		if gs.Meta.Blind.BB > 0 && gs.HasPosition(p.Idx, Position_BB) {
-			g.rg.Add(int64(p.Idx), false)
-			p.AllowAction(Action_Pay)
+			payers = append(payers, p)
 		} else if gs.Meta.Blind.SB > 0 && gs.HasPosition(p.Idx, Position_SB) {
-			g.rg.Add(int64(p.Idx), false)
-			p.AllowAction(Action_Pay)
+			payers = append(payers, p)
 		} else if gs.Meta.Blind.Dealer > 0 && gs.HasPosition(p.Idx, Position_Dealer) {
-			g.rg.Add(int64(p.Idx), false)
-			p.AllowAction(Action_Pay)
+			payers = append(payers, p)
 		}
 	}
 
+	for _, p := range payers {
+		g.rg.Add(int64(p.Idx), false)
+	}
+
+	// running before anybody is allowed to answer (see onReadyRequested)
 	g.rg.Start()
+
+	for _, p := range payers {
+		// Allow "pay" action
+		p.AllowAction(Action_Pay)
+	}
 }
 
 func (g *game) onRoundClosed(gs *pokerface.GameState) {
